@@ -7,7 +7,9 @@ PID = 'C05'
 TRUSTED = ['Tier H model coq/Model/{Axis,Filter}.v tied to /repo by vm_compute correspondence on every run (harness/filterstream.py)',
            'modelled, not verified: binary64 rounding (model is exact; numbers compared within 1e-9, decisions away from borders by >= 5e-4)',
            'firmware behaviour = the reference printer']
-ASSUMPTIONS = ['absolute extrusion mode; matched equal-length retract/recover cycles, E-only or G10/G11, not mixed']
+ASSUMPTIONS = ['absolute extrusion mode; matched equal-length retract/recover cycles, E-only or G10/G11, not mixed',
+               'theorem C05_depth_invariant: E-only dialect (predicate dwf: no G10/G11, moving commands never pull filament back and extrude only when the file is not retracted, '
+               'E-only commands retract / recover by exactly L), dialect of the motion properties (wf_cmd, no homing inside an episode)']
 KW = dict(style_in=('eonly', 'firmware'), wipe=False)
 
 
